@@ -6,11 +6,11 @@ def cplx(p):
     return complex(float(p[0]), float(p[1]))
 
 
-def queries(M, beta, quads, sus_quads, triples):
+def queries(M, beta, quads, sus_quads, triples, container=False):
     pairs = [[i, j] for i in range(M) for j in range(M)]
     return [{"q": "spectrum"}, {"q": "dm", "beta": beta},
             {"q": "gf", "beta": beta, "pairs": pairs, "ns": [-2, 0, 1, 7], "zs": [["0.4", "1.3"]], "taus": [repr(float(beta) / 3)]},
-            {"q": "chi", "beta": beta, "quads": quads, "triples": triples, "tables": False},
+            dict({"q": "chi", "beta": beta, "quads": quads, "triples": triples, "tables": False}, **({"container": True} if container else {})),
             {"q": "sus", "beta": beta, "quads": sus_quads, "ns": [-1, 0, 1]}]
 
 
@@ -53,6 +53,12 @@ def collect(recs, perm=None):
                     z = cplx(v)
                     vals += [z.real, z.imag]
                 out["chi|%s" % ",".join(str(P(x)) for x in o["q"])] = vals
+                if "container" in o:      # the same component read through a TwoParticleGFContainer (stored element or alias)
+                    vals = []
+                    for v in o["container"]:
+                        z = cplx(v)
+                        vals += [z.real, z.imag]
+                    out["chi|%s@container" % ",".join(str(P(x)) for x in o["q"])] = vals
         elif q == "sus":
             for o in r["sus"]:
                 vals = []
@@ -79,8 +85,12 @@ def events(model_id, variant, obs):
     for name in sorted(obs):
         vals = obs[name]
         q = QUANTA[name.split("|")[0]]
+        if name.endswith("@container"):      # the same observable (same key) seen through another access path
+            name, variant_ = name[:-len("@container")], variant + "/container"
+        else:
+            variant_ = variant
         if any(abs(v) >= 2.0e9 * q for v in vals):      # would not fit TLC's 32-bit integers: skipped, visibly
             ev.append({"e": "Obs", "key": "%s|%s|UNQUANTISABLE" % (model_id, name), "var": variant, "vals": [0]})
             continue
-        ev.append({"e": "Obs", "key": "%s|%s" % (model_id, name), "var": variant, "vals": [max(-2000000000, min(2000000000, int(math.floor(v / q)))) for v in vals]})      # TLC integers are 32-bit: saturate, never wrap
+        ev.append({"e": "Obs", "key": "%s|%s" % (model_id, name), "var": variant_, "vals": [max(-2000000000, min(2000000000, int(math.floor(v / q)))) for v in vals]})      # TLC integers are 32-bit: saturate, never wrap
     return ev
